@@ -8,7 +8,7 @@
 From RU Require Import Base.Prelude Base.Utf8 Model.AsciiSet Gen.Tables Model.PercentEncoding
   Model.HostT Model.UrlRecord Model.Parser Model.KnownC01 Spec.Whatwg
   Proofs.C01_Tables Proofs.C01_Override
-  Model.Setters Proofs.C08_Input Proofs.C01_EqRun Proofs.C01_EqEnc Proofs.C01_EqApi Proofs.C01_EqOpaque Proofs.C01_EqRef Proofs.C01_EqPathSpec Proofs.C01_EqDots Proofs.C01_EqPath Proofs.C01_EqClasses
+  Model.Setters Proofs.C08_Input Proofs.C01_EqRun Proofs.C01_EqEnc Proofs.C01_EqApi Proofs.C01_EqOpaque Proofs.C01_EqRef Proofs.C01_EqPathSpec Proofs.C01_EqDots Proofs.C01_EqPath Proofs.C01_EqOverflow Proofs.C01_EqEmpty Proofs.C01_EqClasses
   Model.WF Proofs.C02_Opaque.
 
 (* (a) the percent-encode sets applied by the parser are the Standard's, for every byte *)
@@ -277,3 +277,50 @@ Example C01_eq_pathonly_nonvacuous :
      | _, _ => False
      end.
 Proof. vm_compute. repeat split. Qed.
+
+(* the empty reference (nothing left after cleaning) against a related base that can be a base: the
+   base without its fragment on both sides, never a failure *)
+Theorem C01_eq_empty_ref : forall dbg hp hpo hd shp shs input b sb,
+  related dbg shs b sb -> in_class_empty_ref sb input = true ->
+  agree_rel dbg shs (parse_url dbg hp hpo hd None (Some b) input) (spec_basic_url_parse shp input (Some sb)).
+Proof. exact class_empty_ref. Qed.
+Print Assumptions C01_eq_empty_ref.
+
+Example C01_eq_empty_ref_nonvacuous :
+  in_class_empty_ref ex_sb2 [32; 9; 32] = true
+  /\ match parse_url true toy_hp toy_hp toy_hd None (Some ex_b2) [32; 9; 32],
+           spec_basic_url_parse toy_shp [32; 9; 32] (Some ex_sb2) with
+     | POk u, BDone su => api_of_model true u = Some (spec_api_list toy_shs su)
+                          /\ q_href u = [97; 58; 47; 112; 63; 120]
+     | _, _ => False
+     end.
+Proof. vm_compute. repeat split. Qed.
+
+(* ---------- the Overflow clause, made precise; the final partial statement ---------- *)
+(* in every proved class the model answers ParseError::Overflow only if the href the Standard
+   prescribes is itself longer than u32::MAX (4294967295) bytes *)
+Theorem C01_overflow_only_beyond_u32 : forall dbg hp hpo hd shp shs input base sbase su,
+  usv_list input -> base_rel dbg shs base sbase -> in_proved_class sbase input = true ->
+  parse_url dbg hp hpo hd None base input = PErr Overflow ->
+  spec_basic_url_parse shp input sbase = BDone su ->
+  U32_MAX_P < nlen (get_href shs su).
+Proof. exact class_overflow_bound. Qed.
+Print Assumptions C01_overflow_only_beyond_u32.
+
+(* C01_statement restricted to the proved classes: the Standard succeeds -> the model succeeds with
+   the same ten API strings, or answers Overflow and the Standard's href exceeds u32::MAX bytes;
+   the Standard fails -> the model returns Err *)
+Theorem C01_partial_strict : forall dbg hp hpo hd shp shs input base sbase,
+  usv_list input -> base_rel dbg shs base sbase -> in_proved_class sbase input = true ->
+  agree_strict dbg shs (parse_url dbg hp hpo hd None base input) (spec_basic_url_parse shp input sbase).
+Proof. exact partial_equivalence_strict. Qed.
+Check C01_partial_strict : forall dbg hp hpo hd shp shs input base sbase,
+  usv_list input -> base_rel dbg shs base sbase -> in_proved_class sbase input = true ->
+  match spec_basic_url_parse shp input sbase with
+  | BDone su => (parse_url dbg hp hpo hd None base input = PErr Overflow /\ U32_MAX_P < nlen (get_href shs su))
+                \/ exists u, parse_url dbg hp hpo hd None base input = POk u
+                             /\ api_of_model dbg u = Some (spec_api_list shs su)
+  | BFailure _ => exists e, parse_url dbg hp hpo hd None base input = PErr e
+  | BOutOfFuel => False
+  end.
+Print Assumptions C01_partial_strict.
